@@ -522,6 +522,11 @@ class Oracle:
                 e2 = dict(env)
                 e2.update({n: i for (n, s), i in zip(vs, idx)})
                 vals.append(ev(node[2], e2))
+                if op in ("max", "min") and node[2][0] == "bin" and node[2][1] in ("mul", "truediv"):
+                    # (max, mul) and (min, mul) are semirings on non-negative data only
+                    for operand in (node[2][2], node[2][3]):
+                        if (np.asarray(ev(operand, e2), dtype=float) < 0).any():
+                            raise OutOfDomain("max/min paired with mul on negative data (outside the declared carrier)")
             if op in ("and", "or"):
                 vals = [np.asarray(v).astype(bool) for v in vals]
             elif op == "logaddexp":
